@@ -108,6 +108,34 @@ pub fn run(o: &Opts) -> i32 {
         for (sname, s) in &reg.substances {
             if !plain(sname) || ctx.lookup(sname).is_some() { continue; }
             if !o.thorough && !rng.chance(1, 3) { continue; }
+            // a dimensioned amount (`2 g water`): the reply lists, for every property one side of which has the
+            // amount's dimensionality, the other side under its own name; it must be what `<name> of (<amount> s)` answers
+            {
+                let mut all_names: Vec<&str> = vec![];
+                for (k, p) in s.properties.properties.iter() { all_names.push(k); all_names.push(&p.input_name); all_names.push(&p.output_name); }
+                let uniq = |n: &str| plain(n) && all_names.iter().filter(|x| **x == n).count() == 1;
+                let utext = |u: &rink_core::types::Dimensionality| u.iter().map(|(k, e)| format!("{}^{}", k, e)).collect::<Vec<_>>().join(" ");
+                for (_pname, p) in s.properties.properties.iter() {
+                    for (side, other_name) in [(&p.input, &p.output_name), (&p.output, &p.input_name)] {
+                        if side.dimless() || !uniq(other_name) { continue; }
+                        for k in ["2", "(1|3)", "0.75"] {
+                            let amount = format!("{} {}", k, utext(&side.unit));
+                            let direct = match ev(&format!("{} of ({} {})", other_name, amount, sname)) { Some(QueryReply::Number(n)) => n.raw_value.clone(), Some(QueryReply::Duration(d)) => d.raw.raw_value.clone(), _ => None };
+                            let direct = match direct { Some(d) => d, None => continue };
+                            if let Some(QueryReply::Substance(r)) = ev(&format!("{} {}", amount, sname)) {
+                                let listed: Vec<_> = r.properties.iter().filter(|x| &x.name == other_name).collect();
+                                if listed.len() == 1 {
+                                    paths_checked += 1;
+                                    if listed[0].value.raw_value.as_ref() != Some(&direct) {
+                                        nviol += 1;
+                                        writeln!(orc, "{}", json!({"law": "paths-agree", "query": format!("{} {}", amount, sname), "property": other_name, "want": fmt_number(&direct), "got": listed[0].value.raw_value.as_ref().map(fmt_number)})).unwrap();
+                                    }
+                                }
+                            }
+                        }
+                    }
+                }
+            }
             for (pname, p) in s.properties.properties.iter() {
                 if !plain(pname) || !p.input.dimless() || p.output.unit.is_dimensionless() { continue; }
                 let unit_text: String = p.output.unit.iter().map(|(k, e)| format!("{}^{}", k, e)).collect::<Vec<_>>().join(" ");
@@ -153,18 +181,29 @@ pub fn run(o: &Opts) -> i32 {
     let syms: Vec<String> = reg.substance_symbols.keys().cloned().collect();
     let nform = if o.thorough { 40_000 } else { 3_000 };
     let fixed = ["H2O", "NaCl", "C6H12O6", "H", "He", "", "h2o", "H2O ", "HO2x", "Xx", "H0", "H4294967295", "H4294967296", "H99999999999", "2H", "H-2", "CH3CH2OH", "Uuo", "HHe"];
-    let mut forms: Vec<String> = fixed.iter().map(|s| s.to_string()).collect();
+    // (formula text, its parts when it was generated well-formed: symbol and count)
+    let mut forms: Vec<(String, Option<Vec<(String, u64)>>)> = fixed.iter().map(|s| (s.to_string(), None)).collect();
     for _ in 0..nform {
         let n = 1 + rng.below(5);
         let mut f = String::new();
+        let mut parts: Vec<(String, u64)> = vec![];
         for _ in 0..n {
             let sy: &String = rng.pick(&syms); f.push_str(sy);
-            match rng.below(6) { 0 => {} 1 => f.push_str(&format!("{}", 1 + rng.below(20))), 2 => f.push_str(&format!("{}", rng.next() % 4294967296)), 3 => f.push_str("4294967295"), _ => f.push_str(&format!("{}", rng.below(200))) }
+            let count: Option<u64> = match rng.below(7) { 0 => None, 1 => Some(1 + rng.below(20)), 2 => Some(rng.next() % 4294967296), 3 => Some(4294967295), 4 => Some(2147483648 + rng.below(3)), _ => Some(rng.below(200)) };
+            if let Some(c) = count { f.push_str(&format!("{}", c)); }
+            parts.push((sy.clone(), count.unwrap_or(1)));
         }
-        if rng.chance(1, 10) { let pos = rng.below(f.len() as u64 + 1) as usize; if f.is_char_boundary(pos) { f.insert(pos, *rng.pick(&['x', '-', ' ', 'Q', '.', 'é'])); } }
-        forms.push(f);
+        let mut well = true;
+        if rng.chance(1, 10) { let pos = rng.below(f.len() as u64 + 1) as usize; if f.is_char_boundary(pos) { f.insert(pos, *rng.pick(&['x', '-', ' ', 'Q', '.', 'é'])); well = false; } }
+        forms.push((f, if well { Some(parts) } else { None }));
     }
-    for f in &forms {
+    // molar mass of an element symbol, as an exact number of kg/mol
+    let elem_mass = |sy: &str| -> Option<Numeric> {
+        let s = reg.substances.get(reg.substance_symbols.get(sy)?)?;
+        match s.get("molar_mass") { Ok(n) => Some(n.value), Err(_) => None }
+    };
+    let mut formula_sums = 0u64;
+    for (f, parts) in &forms {
         let res = std::panic::catch_unwind(std::panic::AssertUnwindSafe(|| {
             match substance_from_formula(f, &reg.substance_symbols, &reg.substances) {
                 Some(s) => show_get(s.get("molar_mass")),
@@ -176,9 +215,26 @@ pub fn run(o: &Opts) -> i32 {
         total += 1;
         if res == "panic" { nviol += 1; writeln!(orc, "{}", json!({"law": "formula-panic", "formula": f})).unwrap(); }
         if f.is_empty() && res != "none" { nviol += 1; writeln!(orc, "{}", json!({"law": "empty-formula", "formula": f, "got": res})).unwrap(); }
+        // the count-weighted sum, computed here from the parts the text was generated from
+        if let Some(parts) = parts {
+            // (a count of zero is refused by the tokenizer's grammar or accepted as zero: not judged here)
+            if parts.iter().all(|(_, c)| *c >= 1) {
+                let mut sum = Numeric::from(0);
+                let mut ok = true;
+                for (sy, c) in parts { match elem_mass(sy) { Some(m) => { sum = &sum + &(&m * &Numeric::from(*c as i64)); } None => ok = false } }
+                if ok && res.starts_with("ok ") {
+                    formula_sums += 1;
+                    let want = format!("ok {} ", crate::evalsess::fmt_numeric(&sum));
+                    if !res.starts_with(&want) {
+                        nviol += 1;
+                        writeln!(orc, "{}", json!({"law": "formula-sum", "formula": f, "want": want.trim(), "got": res})).unwrap();
+                    }
+                }
+            }
+        }
     }
     req.flush().unwrap(); imp.flush().unwrap(); orc.flush().unwrap();
     crate::util::write_json(&format!("{}/stats.json", o.out), &json!({"total": total, "substances": reg.substances.len(), "symbols": syms.len(),
-        "formulas": forms.len(), "linear_law_checked": linear_checked, "of_query_checked": glue_checked, "paths_agree_checked": paths_checked, "oracle_violations": nviol, "samples": samples}));
+        "formulas": forms.len(), "formula_sums_checked": formula_sums, "linear_law_checked": linear_checked, "of_query_checked": glue_checked, "paths_agree_checked": paths_checked, "oracle_violations": nviol, "samples": samples}));
     0
 }
